@@ -319,6 +319,8 @@ struct Opt {
   float explicit_origin = -3000.f, explicit_range = 8000.f;
   bool no_predictive = false;   // ExpertEncoder only: EncoderOptions::SetSupportedFeature(features::kPredictiveEdgebreaker, false)
   bool desc_order = false;      // set per-attribute options from the last attribute to the first
+  bool history = false;         // the objects have a past that must not matter: the buffer has served a size-prefixed bit sequence (and was cleared), the
+                                // Encoder has received requests it rejected (deprecated / unsuitable prediction schemes) before the real settings
   bool reuse_enc = false;       // type-keyed Encoder API only: encode with ONE Encoder object per thread that has served every earlier case (Reset() first)
   bool compress_conn = false;   // sequential meshes: global option "compress_connectivity" (delta + entropy coded indices instead of stored indices)
 };
@@ -367,6 +369,7 @@ struct Encoded {
 inline Encoded encode(const Geom &g, const Opt &o) {
   Encoded e;
   EncoderBuffer eb;
+  if (o.history) { eb.StartBitEncoding(40, true); eb.EncodeLeastSignificantBits32(7, 5); eb.EndBitEncoding(); eb.Clear(); }
   Status st;
   if (o.expert) {
     std::unique_ptr<ExpertEncoder> enc(g.is_mesh ? new ExpertEncoder(*g.mesh()) : new ExpertEncoder(*g.pc));
@@ -398,6 +401,13 @@ inline Encoded encode(const Geom &g, const Opt &o) {
     Encoder fresh;
     Encoder &enc = o.reuse_enc ? persistent : fresh;
     if (o.reuse_enc) enc.Reset();
+    if (o.history && o.pred == -100) {   // every one of these calls returns an error: none may leave a trace in the options
+      enc.SetAttributePredictionScheme(GeometryAttribute::POSITION, MESH_PREDICTION_MULTI_PARALLELOGRAM);
+      enc.SetAttributePredictionScheme(GeometryAttribute::POSITION, MESH_PREDICTION_TEX_COORDS_DEPRECATED);
+      enc.SetAttributePredictionScheme(GeometryAttribute::NORMAL, MESH_PREDICTION_TEX_COORDS_PORTABLE);
+      enc.SetAttributePredictionScheme(GeometryAttribute::GENERIC, MESH_PREDICTION_GEOMETRIC_NORMAL);
+      enc.SetAttributePredictionScheme(GeometryAttribute::TEX_COORD, 99);
+    }
     enc.SetSpeedOptions(o.es, o.ds);
     if (o.method >= 0) enc.SetEncodingMethod(g.is_mesh ? (o.method ? MESH_EDGEBREAKER_ENCODING : MESH_SEQUENTIAL_ENCODING)
                                                        : (o.method ? POINT_CLOUD_KD_TREE_ENCODING : POINT_CLOUD_SEQUENTIAL_ENCODING));
